@@ -1662,3 +1662,20 @@ CONTROLS['C20'] += [
               "            if randomize:\n                limited_objs = random.sample(alloc_request_objs, self._limit)\n"
               "            alloc_request_objs = limited_objs\n")], 'R20.4'),
 ]
+
+CONTROLS['C13'] += [
+    M2('c13-seed-any-unknown-aggregate-empties-result',
+       [(RCX, "    rp_tbl = sa.alias(_RP_TBL, name='rp')\n    join_chain = rp_tbl\n\n    for x, members in enumerate(member_of):\n",
+         "    if len(agg_uuid_map) < len(agg_uuids):\n        return set()\n\n    rp_tbl = sa.alias(_RP_TBL, name='rp')\n    join_chain = rp_tbl\n\n    for x, members in enumerate(member_of):\n"),
+        (RCX, "        agg_ids = [agg_uuid_map[member] for member in members\n                   if member in agg_uuid_map]\n        if not agg_ids:\n"
+              "            # This member_of list contains only non-existent aggregate UUIDs\n"
+              "            # and therefore we will always return 0 results, so short-circuit\n            return set()\n",
+              "        agg_ids = [agg_uuid_map[member] for member in members]\n")], 'R13.7'),
+    B('c13-benign-no-short-circuit-for-unknown-group', RCX,
+      "        if not agg_ids:\n            # This member_of list contains only non-existent aggregate UUIDs\n"
+      "            # and therefore we will always return 0 results, so short-circuit\n            return set()\n",
+      ""),
+    B('c13-benign-aggregate-ids-rename', RCX,
+      "        agg_ids = [agg_uuid_map[member] for member in members\n                   if member in agg_uuid_map]\n        if not agg_ids:\n",
+      "        known = [agg_uuid_map[u] for u in members if u in agg_uuid_map]\n        agg_ids = known\n        if not known:\n"),
+]
